@@ -13,12 +13,27 @@ from an index":
  (R3) ORDER BY of a set operation orders the combined result: in the function that executes set operations
       (execute_with_ctes) the call of execute_set_operations is followed, before apply_limit_offset, by a test of
       stmt.order_by whose Some branch hands the ORDER BY items and the combined rows to a sorting function;
+ (R4) multi-key comparators are lexicographic: in every comparator of the executor that walks the key list in a loop
+      (ORDER BY, aggregated ORDER BY, set-operation ORDER BY, window partitions, implicit ordering, grouped plans), a
+      value leaves the loop body only as a constant Less / Greater or as a comparison result that a dominating test
+      found different from Equal; Equal is returned only after the last key (the None edge of the key iterator).  A tie
+      on one key - two NULLs included - must fall through to the next key;
+ (R5) LIMIT / OFFSET cut the final sequence: every operation that shortens a row sequence by an amount read from
+      stmt.limit / stmt.offset (apply_limit_offset, truncate, take, skip, drain, split_off) is decided - in its function
+      or in every caller, through bool helpers such as can_use_iterator_execution - by "the statement has no set
+      operation" (the cut of a set operation belongs to the combined result) and by "not DISTINCT" or follows
+      apply_distinct on the same rows; the one cut after execute_set_operations is the combined result's;
+ (R6) no result path forgets the cut: from execute_with_ctes downwards (every callee of the select executor that receives
+      the same `stmt`), each path to a successful return passes, for LIMIT and for OFFSET separately, a cut by that
+      clause, a call of a function for which the same holds, a branch on which the clause was found absent, a branch on
+      which the statement has a set operation (the cut is the combined result's), or returns an empty vector / declines
+      with Ok(None).  A fast path that answers COUNT(*) from the row count, or SELECT without FROM, must still cut;
  (R2) the reference the rule relies on: compare_sql_values orders (NULL, x) as Greater and (x, NULL) as Less.
 Does NOT decide that the index order equals the sort order for non-NULL keys (C02 decides the key pipeline), LIMIT /
 OFFSET arithmetic, or DISTINCT."""
 import re
 from ..engine.facts import callee_name
-from ..engine.cfg import cfg
+from ..engine.cfg import cfg, op_place
 from ..engine.symexpr import Sym
 from . import shared
 
@@ -102,6 +117,9 @@ def run(ctx):
         ctx.finding('R2/compare_sql_values', 'compare_sql_values no longer orders NULL after every value: rule R1 (and the index path) assume NULLS LAST on the sorting path',
                     cmpf.loc)
     _setop_rule(ctx, prog)
+    _lexicographic_rule(ctx, prog)
+    _cut_rule(ctx, prog)
+    _complete_rule(ctx, prog)
 
 
 def _setop_rule(ctx, prog):
@@ -133,3 +151,168 @@ def _setop_rule(ctx, prog):
         if not (ok and passes):
             ctx.finding(f'R3/{f.nice.rsplit("::", 1)[1]}', f'{f.nice} cuts the result of a set operation with LIMIT/OFFSET without ordering it by the statement\'s ORDER BY: '
                         'only the left operand was sorted, the rows of the right operand follow unsorted (SELECT v FROM p UNION SELECT v FROM q ORDER BY v)', f.loc)
+
+
+def _lexicographic_rule(ctx, prog):
+    from ..engine.paths import loop_headers
+    ctx.rule('C08.R4', 'comparators that loop over the sort keys: inside the loop body _0 receives only the constants Less / Greater or a value that a dominating '
+             'ne(value, Equal) test found unequal; Equal is assigned only behind the None edge of the key iterator')
+    n = 0
+    for f in prog.fns.values():
+        if f.unit != 'vibesql_executor' or shared.is_test(f) or not f.locals or not f.locals[0].endswith('cmp::Ordering'):
+            continue
+        lh = loop_headers(f)
+        if not lh:
+            continue
+        g = cfg(f)
+        s = Sym(f)
+        n += 1
+        bad = []
+        for h, (sb, none_t) in lh.items():
+            some_t = [x for x in g.succ[sb] if x != none_t and f.blocks[x]['t']['k'] != 'unreachable']
+            body, work = set(), list(some_t)
+            while work:
+                b = work.pop()
+                if b in body or b == h:
+                    continue
+                body.add(b)
+                work.extend(x for x in g.succ[b] if not f.blocks[x]['t'].get('cleanup'))
+            for b in sorted(body):
+                vals = []
+                for st in f.blocks[b]['s']:
+                    if 'd' in st and st['d'][0] == 0 and not st['d'][1]:
+                        v = st['v']
+                        if v['r'] == 'agg':
+                            vals.append(('const', v.get('variant'), st['l']))
+                        else:
+                            vals.append(('value', s.op(v['a']) if 'a' in v else v['r'], st['l']))
+                t = f.blocks[b]['t']
+                if t['k'] == 'call' and t['d'][0] == 0 and not t['d'][1]:
+                    vals.append(('value', s.op(t['args'][0]) if t['args'] else '?', t['l']))
+                for kind, val, line in vals:
+                    if kind == 'const':
+                        if val not in ('Less', 'Greater'):
+                            bad.append((line, f'returns the constant {val} from inside the key loop'))
+                        continue
+                    tested = False
+                    for c, vv in shared.deciding_conditions(f, b, s):
+                        if c.startswith('ne(') and vv != '0' and _is_equal_const(prog, c) and _same_value(c[3:], val):
+                            tested = True
+                        if c.startswith('eq(') and vv == '0' and _is_equal_const(prog, c) and _same_value(c[3:], val):
+                            tested = True
+                    if not tested:
+                        bad.append((line, f'returns {val[:50]} from inside the key loop without a dominating test that it differs from Equal'))
+        key = 'R4/' + re.sub(r"<impl [^>]*>::", '', f.nice).split('vibesql_executor::', 1)[-1]
+        ctx.instance(key, {'rule': 'C08.R4', 'fn': f.nice, 'loc': f.loc, 'lexicographic': not bad})
+        for line, why in bad:
+            ctx.finding(key, f'{f.nice} {why}: rows that tie on this key (two NULLs, equal values) are reported as equal although later ORDER BY keys differ, so the '
+                        'stable sort leaves them in input order', f'{f.file}:{line}')
+    ctx.floor('C08.R4 looping comparators', n, 10)
+
+
+def _same_value(cond_rest, val):
+    """ne(<a>, const(..)) tests the value that is returned: <a> is val, a reference to it, or val is reverse(<a>) / a phi over <a>"""
+    a = cond_rest.split(', const(', 1)[0]
+    return a == val or a in val or val in a
+
+
+def _is_equal_const(prog, cond):
+    m = re.search(r'const\(([^()]*promoted\[\d+\])\)', cond)
+    if not m:
+        return False
+    for pf in prog.by_nice.get(m.group(1), []):
+        for b in pf.blocks:
+            for st in b['s']:
+                if 'd' in st and st['v']['r'] == 'agg' and str(st['v'].get('adt', '')).endswith('cmp::Ordering'):
+                    return st['v'].get('variant') == 'Equal'
+    return False
+
+
+CUT = re.compile(r'(::truncate|::drain|::split_off|Iterator::take|Iterator::skip|select::helpers::apply_limit_offset)(<.*)?$')
+
+
+# reviewed: cuts for which one of the two conditions is vacuous (one named function each, with the reason)
+R5_REVIEWED = {
+    ('execute_select_without_from', 'not_distinct'): 'SELECT without FROM yields at most one row: DISTINCT is the identity on it',
+}
+
+
+def _cut_rule(ctx, prog):
+    ctx.rule('C08.R5', 'every shortening of a row sequence by stmt.limit / stmt.offset is decided by "no set operation" and by "not DISTINCT" (or follows apply_distinct), '
+             'in its function or at every call site of it; the cut behind execute_set_operations is the combined result\'s own')
+    cg = None
+    sites = []
+    for f in prog.fns.values():
+        if f.unit != 'vibesql_executor' or shared.is_test(f) or '::select::' not in f.nice:
+            continue
+        s = None
+        for i, t in f.calls():
+            cn = callee_name(t) or ''
+            if not CUT.search(cn) or f.nice.endswith('helpers::apply_limit_offset'):
+                continue
+            s = s or Sym(f)
+            amounts = [s.op(a) for a in t['args'][1:]]
+            if any(re.search(r'\bstmt\.(limit|offset)\b|\.(limit|offset)@Some', a) for a in amounts):
+                sites.append((f, i, t, s))
+    ctx.floor('C08.R5 cuts by the statement\'s LIMIT / OFFSET', len(sites), 5)
+
+    def established(f, i, s, depth=0, seen=()):
+        at = shared.stmt_atoms(prog, f, i, s)
+        rows = s.op(f.blocks[i]['t']['args'][0]) if f.blocks[i]['t']['args'] else ''
+        if 'apply_distinct(' in rows:
+            at.add('not_distinct')
+        g = cfg(f)
+        if any((callee_name(t2) or '').endswith('::execute_set_operations') and g.dominates(j, i) for j, t2 in f.calls()):
+            at |= {'set_operation_none', 'not_distinct'}   # the combined result: DISTINCT belongs to the operands
+        if {'set_operation_none', 'not_distinct'} <= at or depth >= 3:
+            return at
+        callers = []
+        for h in prog.fns.values():
+            if h.unit != f.unit or shared.is_test(h) or h.nice in seen:
+                continue
+            for j, t2 in h.calls():
+                if (callee_name(t2) or '') == f.nice:
+                    callers.append((h, j))
+        if not callers:
+            return at
+        inherited = None
+        for h, j in callers:
+            a2 = established(h, j, Sym(h), depth + 1, seen + (f.nice,))
+            inherited = a2 if inherited is None else inherited & a2
+        return at | (inherited or set())
+
+    for f, i, t, s in sites:
+        at = established(f, i, s)
+        short = re.sub(r"<impl [^>]*>::", '', f.nice).rsplit('::', 1)[-1]
+        op = (callee_name(t) or '').rsplit('::', 1)[-1].split('<')[0]
+        key = f'R5/{short}/{op}'
+        ctx.instance(key + f'@{t["l"]}', {'rule': 'C08.R5', 'fn': f.nice, 'loc': f'{f.file}:{t["l"]}', 'established': sorted(at)})
+        missing = {m for m in {'set_operation_none', 'not_distinct'} - at if (short, m) not in R5_REVIEWED}
+        if missing:
+            what = ' and '.join({'set_operation_none': 'the statement having no set operation', 'not_distinct': 'DISTINCT being absent or already applied'}[m] for m in sorted(missing))
+            ctx.finding(key, f'{f.nice} shortens the rows by the statement\'s LIMIT / OFFSET ({op}) without {what} being decided on the way: the operand of '
+                        'UNION / EXCEPT / INTERSECT (or the input of DISTINCT) is cut before the operation, so `t EXCEPT u LIMIT 1` loses its row and OFFSET is applied twice',
+                        f'{f.file}:{t["l"]}')
+
+
+def _complete_rule(ctx, prog):
+    ctx.rule('C08.R6', 'execute_with_ctes and, recursively, every select-executor callee that receives the same stmt and whose rows are returned: no successful return '
+             'is reachable without passing (per clause) a cut by LIMIT / OFFSET, a complete callee, a branch where the clause is absent or the statement has a set '
+             'operation; empty and declining (Ok(None)) returns excepted')
+
+    def clause(cl):
+        def sat(f, s, g, atoms):
+            out = set()
+            for i, t in f.calls():
+                if CUT.search(callee_name(t) or '') and any(re.search(r'\bstmt\.%s\b' % cl, s.op(a)) for a in t['args'][1:]):
+                    out.add(i)
+            for b, at in atoms.items():
+                if cl + '_none' in at or 'set_operation_some' in at:
+                    out.add(b)
+            return out
+        return sat
+
+    def describe(cl, f, lines):
+        return (f'{f.nice} has a path to a successful return that never cuts the rows by the statement\'s {cl.upper()} (through lines {lines}): the result ignores '
+                f'{cl.upper()} (SELECT COUNT(*) FROM t LIMIT 0 and SELECT 1 OFFSET 1 return a row)')
+    shared.result_path_rule(ctx, prog, 'C08.R6', {'limit': clause('limit'), 'offset': clause('offset')}, describe)
